@@ -398,3 +398,8 @@ def run(repo: Repo, rep: Report) -> None:
                    "setdefault keeps earlier entries" if ok else "%s() replaces the entry for a graph term: an earlier GRAPH block naming the same graph is lost" % n.func.attr, node=n)
     if nacc == 0:
         rep.ob("C10.g-quad-blocks-accumulate", alg, "translateQuads", "writes to %s" % dname, False, "no write to the per-graph map found", node=tq)
+
+    # ------------------------------------------------------------------ (h)
+    from checks.c15 import translation_cache_rule
+
+    translation_cache_rule(repo, rep, "C10.h-update-translation-not-cached", ("translateUpdate",))
